@@ -23,7 +23,7 @@ func (c18) Budget(tier string) int {
 	if tier == "thorough" {
 		return 30000
 	}
-	return 800
+	return 4800
 }
 
 func (c18) Describe() engine.Info {
